@@ -52,11 +52,11 @@ func init() {
 }
 
 type c09Case struct {
-	Route  string       `json:"route"`
-	Colors []color.RGBA `json:"colors,omitempty"`
-	Blend  [3]uint8     `json:"blend,omitempty"`
-	Ctx    int          `json:"ctx,omitempty"`
-	Hex    string       `json:"hex,omitempty"`
+	Route  string             `json:"route"`
+	Colors []color.RGBA       `json:"colors,omitempty"`
+	Blend  [3]uint8           `json:"blend,omitempty"`
+	Ctx    int                `json:"ctx,omitempty"`
+	Hex    string             `json:"hex,omitempty"`
 	Pal    map[int]color.RGBA `json:"palette,omitempty"`
 }
 
